@@ -57,6 +57,8 @@ pub struct CaseResult
 /// Prepare the state the operation starts from: initial state + pre-history, serially.
 pub fn prepare(case: &SchedCase) -> Result<State, String>
 {
+    let _w = crate::watch::item(|| (format!("the pre-history [{}] of case {} on the serial schedule", hist::ops_short(&case.pre), case.name),
+        json!({"engine": "sched", "case": case.name, "what": "pre-history", "ops": case.pre})));
     let sc = case.sc.clone();
     let pre = case.pre.clone();
     let (r, outcome) = sched::run_once(vec![], move ||
@@ -417,12 +419,15 @@ pub fn explore(case: &SchedCase, prep: &State, cfg: &ExploreCfg) -> CaseResult
                     let rc = rc.clone();
                     let or = or.clone();
                     let slot = slot.clone();
+                    let wprefix = prefix.clone();
                     Some(Job
                     {
                         prefix,
                         full: por,
                         body: Box::new(move ||
                         {
+                            let _w = crate::watch::item(|| (format!("case {} under the schedule that follows the choices {:?} and then never preempts", case.name, wprefix),
+                                json!({"engine": if case.name == "realfs-step" { "unreplayable" } else { "sched" }, "case": case.name, "choices": wprefix, "what": "does not return", "c03": false})));
                             let res = run_case_op(&case, &prep, &rc, &or, c04h);
                             *slot.borrow_mut() = Some(res);
                         }),
@@ -617,6 +622,15 @@ pub fn success_cases(tier: &str) -> Vec<SchedCase>
     let wf = sc_widefanin();
     v.push(mk("widefanin/built+edit/build", &wf, vec![b(None), e("u", 1)], b(None)));
     v.push(mk("twins/partly-cleaned/build", &twins, vec![b(None), c(Some("a"))], b(None)));
+    // one producer, one consumer, two edges: both targets of a rule feed one dependent; a source listed twice
+    let bt = scn("bothtargets", vec![multi_rule(&["t1", "t2"], &["s1", "s2"], &[&["s1"], &["s2"]]), cat_rule("d", &["t1", "t2"])], &["s1", "s2"]);
+    v.push(mk("bothtargets/fresh/build", &bt, vec![], b(None)));
+    v.push(mk("bothtargets/built+edit2/build", &bt, vec![b(None), e("s2", 1)], b(None)));
+    let mut ds = scn("dupsource", vec![cat_rule("dir/m", &["s"]), cat_rule("u2", &["u"]),
+        RuleSpec { targets: sv(&["t"]), sources: sv(&["dir/m", "dir/m", "u2"]), lines: vec![Line::Cat { inputs: sv(&["dir/m", "dir/m", "u2"]), out: s("t") }] }], &["s", "u"]);
+    ds.edits.push((s("dir/.keep"), vec![crate::memsys::bytes("")]));
+    v.push(mk("dupsource/fresh/build", &ds, vec![], b(None)));
+    v.push(mk("dupsource/built+edit/build", &ds, vec![b(None), e("s", 1)], b(None)));
     if tier == "thorough"
     {
         v.push(mk("chain3/fresh/build", &chain3, vec![], b(None)));
